@@ -114,7 +114,10 @@ impl<T> Iterator for HintIter<T> {
     }
 }
 
-thread_local! { static MASS: std::cell::Cell<bool> = std::cell::Cell::new(false); }
+thread_local! {
+    static MASS: std::cell::Cell<bool> = std::cell::Cell::new(false);
+    static MASS_CLASS: std::cell::Cell<usize> = std::cell::Cell::new(0);
+}
 
 struct Hist {
     streams: bool,
@@ -182,7 +185,8 @@ fn new_member(h: &mut Hist, p: &Profile, nested_pct: u32) -> (Member, Cid) {
             let never = w.chance(p.never_pct);
             let mut script = engine_a::gen_script(w, p, streams, never, p.err_pct);
             if MASS.with(|m| m.get()) && !w.chance(20) {
-                script = match (streams, w.below(3)) {
+                // (one degenerate class per history, so that most members finish in the same poll)
+                script = match (streams, MASS_CLASS.with(|m| m.get())) {
                     (true, 0) => vec![Step::End],
                     (true, 1) => vec![Step::Item, Step::End],
                     (true, _) => vec![Step::PendLater, Step::End],
@@ -252,6 +256,7 @@ pub fn run(prop: &str, thorough: bool, case_seed: u64, sub: u64) -> ExecOut {
     // that ten and more members finish inside one poll of the group (inline buffers of the library spill there)
     let mass = w(|w| w.chance(6));
     MASS.with(|m| m.set(mass));
+    MASS_CLASS.with(|m| m.set(w(|w| w.below(3))));
     let mut inserts_left = if mass { 11 + w(|w| w.below(8)) } else { 2 + w(|w| w.below(if thorough { 10 } else { 8 })) };
     let mut ctor_desc = format!("with_capacity({cap0})");
     let mut init_f: Vec<BF> = vec![];
